@@ -312,11 +312,11 @@ def c05(ev, tier, seed):
 CONN_INVARIANTS = "ReuseIff NoOwedReplyWhileWaiting NoWaitCycle OneHandlerPerRequest EpilogueShape Emit"
 
 
-def conn_cfg(B, menu, sizes="all", spurious=False, stops=False, faults=(), maxcuts=2, maxpend=1, fixa=True, fixb=True):
+def conn_cfg(B, menu, sizes="all", spurious=False, stops=False, faults=(), maxcuts=2, maxpend=1, fixa=True, fixb=True, invariants=None):
     return ("SPECIFICATION Spec\nCONSTANTS\n  B = %d\n  ND = 1\n  FixA = %s\n  FixB = %s\n  Menu = %s\n  Sizes = \"%s\"\n  Spurious = %s\n"
             "  Stops = %s\n  Faults = %s\n  MaxCuts = %d\n  MaxPend = %d\nINVARIANTS %s\nPROPERTIES NoHandlerAfterStop\nCHECK_DEADLOCK FALSE\n"
             % (B, str(fixa).upper(), str(fixb).upper(), cl.tla_set(menu), sizes, str(spurious).upper(), str(stops).upper(), cl.tla_set(faults),
-               maxcuts, maxpend, CONN_INVARIANTS))
+               maxcuts, maxpend, invariants or CONN_INVARIANTS))
 
 
 def conn_model(ev, prop, seed, label, B, menu, timeout=2400, **kw):
@@ -564,3 +564,13 @@ def c20(ev, tier, seed):
     ev.add_harness("vectors replayed on the header writers", h)
     ev.exhaustive = False
     ev.assumptions = ["the reason phrase is an input taken from the http crate (canonical_reason, 'Custom' otherwise)"]
+
+
+@check("EXTRA")
+def extra(ev, tier, seed):
+    """Not a property check (not registered in MANIFEST.json): conformance of the parts of the specification that go beyond
+    the listed properties - pipelining clients, multiplexing attempts, unknown roles, fatal headers at connection level.
+    Differences are reported as DRIFT / NOTE only."""
+    ev.rule = "MC_Conn family 'beyond' replayed on Token::run; differences are drift, never violations"
+    for B in (24, 32):
+        conn_model(ev, "EXTRA", seed, "beyond-b%d" % B, B, ["beyond"], maxcuts=2, invariants="OneHandlerPerRequest EpilogueShape Emit")
